@@ -3,6 +3,7 @@ import Q1t.Proofs.PauliAct
 import Q1t.Proofs.TableauRow
 import Q1t.Proofs.TableauStab
 import Q1t.Proofs.TableauNormalize
+import Q1t.Proofs.TableauMeasure
 import Q1t.Proofs.TableauTables
 import Q1t.Proofs.TableauBits
 import Q1t.Proofs.TableauFinite
@@ -115,6 +116,20 @@ below and by the correspondence run for larger `n`; not proved in general.) -/
 theorem normalize_sound (t : Tab) (ψ : Vec) (hst : Stabilizes t ψ) (hnz : Vec.isZero ψ = false) :
     ∃ t', t.normalize Q1t.Gen.phaseTable = .ok t' ∧ t'.n = t.n ∧ ∀ φ, Stabilizes t' φ ↔ Stabilizes t φ :=
   normalize_ok phaseTable_correct t ψ hst hnz
+
+/-- **Deterministic outcomes have the right value, all `n` — partial.**
+Full statement (not proved for general `n`): *if `measure(q)` reports `Deterministic(b)` on the canonical
+tableau of `ψ`, then `ψ` has no weight on outcome `¬b`; otherwise both outcomes have weight ½.*
+`measure` reports the sign of the last row with `Z` in column `q` when no row has `X`/`Y` there.  Proved
+here, for all `n`, all tableaux and all vectors: whenever a row is exactly `±Z_q` (as it is in canonical
+form — that structural half, and the 50/50 half, are kernel-checked for `n ≤ 2` in
+`exhaustive_measure_n2` and checked by the correspondence run beyond), the sign of that row *is* the
+certain outcome: the projection of `ψ` on "qubit `q` = ¬sign" is the zero vector. -/
+theorem measure_deterministic_sound_partial (t : Tab) (ψ : Vec) (hst : Stabilizes t ψ) (q : Nat) (hq : q < t.n)
+    (i : Nat) (s : Bool) (hs : t.signs[i]? = some s)
+    (hr : t.rows[i]? = some ((List.range t.n).map fun j => if j = q then P.Z else P.I)) :
+    Vec.isZero (proj t.n q (!s) ψ) = true :=
+  zRow_pins_outcome t ψ hst q hq i s hs hr
 
 /-! ## the `u64` packing (all `n`) -/
 
